@@ -182,6 +182,10 @@ func genC12(t *rapid.T) *Scenario {
 		sc.In = append(sc.In, in)
 		sc.Caps = append(sc.Caps, rapid.IntRange(0, 3).Draw(t, "cap"))
 	}
+	if k >= 2 && rapid.IntRange(0, 7).Draw(t, "aliased") == 0 {
+		sc.N = 1 // the first input is handed to Join twice (in place of the last one, whose elements are then never sent)
+		sc.In[k-1] = nil
+	}
 	sc.Script = genScript(t, k, 1, false, false, 40+4*k)
 	return sc
 }
